@@ -117,12 +117,10 @@ class PositionOb(TemplateObligation):
         ok = self.compare(lifted, exp)
         finding = None
         if not ok and self.quote != "none":
-            # region of the two recorded double-normalisation findings: quoted spelling with an upper-case
+            # region of the recorded double-normalisation finding (the column one was repaired in /repo): quoted spelling with an upper-case
             # letter, and the wrong answer is exactly "that name case-folded" at that position
             if bool(has_upper(n)):
-                if self.pos in COLUMN_SOURCE_POS and self.compare(lifted, self.expect_wrong_column(n)):
-                    finding = "C16-quoted-column-folded-as-source"
-                elif self.pos in SCHEMA_POS and self.compare(lifted, self.expect(spec.lower())):
+                if self.pos in SCHEMA_POS and self.compare(lifted, self.expect(spec.lower())):
                     finding = "C16-quoted-schema-folded"
         return self.verdict(names, lifted, exp, ok=ok, finding=finding)
 
@@ -243,10 +241,7 @@ class KernelOb(Obligation):
             src = Column(x)
             (got,) = src.to_source_columns({SymStr.const("tmid"): Table("tmid")})
             ok = bool(got == tgt)
-            fid = None
-            if not ok and qx != "none" and bool(has_upper(x)) and bool(got.raw_name == sx.lower()):
-                fid = "C16-quoted-column-folded-as-source"
-            return Verdict(ok, {"x": x, "written": str(tgt), "read": str(got)}, fid)
+            return Verdict(ok, {"x": x, "written": str(tgt), "read": str(got)})
         raise Unsupported("unknown kernel " + k)
 
     def replay(self, conc, verdict_ok):
@@ -257,9 +252,7 @@ class KernelOb(Obligation):
         if not r.get("ok"):
             return {"real_ok": False, "lifted_matches": False, "detail": r}
         res = r["result"]
-        return {"real_ok": bool(res["ok"]), "lifted_matches": bool(res["ok"]) == bool(verdict_ok), "detail": res,
-                "finding": ("C16-quoted-column-folded-as-source" if self.name == "column_roundtrip" and not res["ok"]
-                            and res.get("folded") else None)}
+        return {"real_ok": bool(res["ok"]), "lifted_matches": bool(res["ok"]) == bool(verdict_ok), "detail": res}
 
 
 _PRE = """
